@@ -1,6 +1,7 @@
 """C15, several dimensions: the 2-d Levy-copula chain simulator and its coupled version (scenarios.c15 delegates here
 when ``process.kind`` is ``copula`` / ``copula_coupling``). Same executable reference as in one dimension, with vector
 jump sizes and a diffusion matrix."""
+import copy
 import hashlib
 
 import numpy as np
@@ -140,8 +141,19 @@ def execute(wd, sc):
         phase.update(name="precompute", poisson_idx=0)
         process.pre_computation(npaths, product)
         if coupled:
-            phase.update(name="precompute", poisson_idx=0)
-            process.next_level(npaths, None, product, max_step_epsilon=eps)
+            for lvl in range(max(1, sc.get("level", 1))):
+                # engine history: deep copy of the previous level's object, (re-)initialised and refined with the step cap
+                # of its own level (CouplingSDE initialises and then refines; the cap shrinks with h^BG)
+                if lvl > 0:
+                    process = copy.deepcopy(process)
+                    if eps is not None:
+                        eps = eps * sc.get("eps_decay", 1.0)
+                        if sc.get("eps_decay", 1.0) != 1.0:
+                            wd.probes["c15.step_cap_changes_between_levels"] += 1
+                    if sc.get("reinit"):
+                        process.initialisation(product, max_step_epsilon=eps)
+                phase.update(name="precompute", poisson_idx=0)
+                process.next_level(npaths, None, product, max_step_epsilon=eps)
             phase.update(name="precompute", poisson_idx=0)
             process.pre_computation(npaths, product)
     except HarnessError:
